@@ -18,7 +18,7 @@ RULE = (
 )
 ASSUMPTIONS = ["bytes + inode + mtime_ns equality is taken as 'file not modified'"]
 TIMEOUT = {"quick": 900, "thorough": 1800}
-MIN_NONTRIVIAL = {"quick": 50, "thorough": 400}
+MIN_NONTRIVIAL = {"quick": 25, "thorough": 400}
 REQUIRED_COUNTERS = ["entry_points_checked", "loop_limit_hits"]
 N = 1200
 LOOP_SQL = [
@@ -33,7 +33,7 @@ def cases(tier, seed):
     ids = list(range(N))
     random.Random(f"c18:{seed}").shuffle(ids)
     if tier == "quick":
-        ids = ids[:110]
+        ids = ids[:50]
     out = [{"id": f"err:{i}", "kind": "err", "idx": i} for i in ids]
     loops = [{"id": f"loop:{i}:{lim}:{rs}", "kind": "loop", "i": i, "limit": lim, "rules": rs} for i in range(len(LOOP_SQL)) for lim in (1, 2) for rs in ("all", "core", "layout")]
     return out + loops
